@@ -170,3 +170,44 @@ CHECKS["C09"] = dict(
         thorough=[inst("root", "VHRandomContracts", solver="z3", workers=8, must_reach=["dice", "random_range", "random"])]),
     assumptions=["seed strings of 1..3 arbitrary bytes"],
 )
+
+# ---------------------------------------------------------------- C07
+CHECKS["C07"] = dict(
+    level="model_checking",
+    claim="On the real Snapshot/RestoreAt/Next: (1) from every state of the C01 state space whose head is a jump, a snapshot taken before the step "
+          "is unchanged by it (deep comparison with a copy) and one taken after equals (store, visit counts, entered node) as of the entry; "
+          "(2) RestoreAt of an arbitrary snapshot (symbolic node name incl. unknown ones, symbolic variables and counts) into a runner in any "
+          "state (mid-node, exhausted, waiting for a choice, command pending/completed) yields the canonical node-entry state, an immediately "
+          "taken snapshot equal to the restored one, and a following step that runs the node's first statement; the snapshot and a second "
+          "runner restored from it are unaffected; an unknown node is an error that changes nothing.",
+    note="Equality of futures follows from equality of abstract states plus determinism of Next (C01/C09): stated, not re-proved. Scripts using "
+         "random functions and host storers are outside the claim.",
+    instances=dict(
+        quick=[_world("VHSnapshotAtJump", DEPTH=1, QLEN=1, HEAD=100, VARSNAP=1, must_reach=["jumped"]),
+               _world("VHRestore", DEPTH=1, QLEN=1, CMDCHAN=1, VISCFG=1, must_reach=["restored", "unknown-node", "jump-after-restore"])],
+        thorough=[_world("VHSnapshotAtJump", DEPTH=2, QLEN=2, HEAD=100, VARSNAP=1, workers=16, must_reach=["jumped"]),
+                  _world("VHSnapshotAtJump", DEPTH=1, QLEN=1, BUDGET=1, VARSNAP=1, workers=16, must_reach=["jumped"]),
+                  _world("VHRestore", DEPTH=2, QLEN=2, CMDCHAN=1, workers=16, must_reach=["restored", "unknown-node", "jump-after-restore"])]),
+    assumptions=["snapshot: node name 2 symbolic bytes, variables b0/x/only with symbolic values, visit counts absent or in [1,2^40)"],
+)
+
+# ---------------------------------------------------------------- C10
+CHECKS["C10"] = dict(
+    level="model_checking",
+    claim="On the real Next/executeCommandStatement/commandStorer: from every state of the C01 state space with a command channel that is pending "
+          "or completed (nil or error), 0..2 polls while pending return exactly ErrWaitingForCommandCompletion and change nothing (continuation, "
+          "store, visit counts, handler/function logs; a blocking receive would be a deadlock path), completion with nil or an error at a "
+          "solver-chosen moment is surfaced exactly once, and the dialogue then resumes with an ordinary step; the C01 step checks that every "
+          "executed command statement invokes its handler exactly once with its arguments in order and that a still-pending handler is reported. "
+          "<<wait n>> on a virtual clock: the sleep completes no earlier than n seconds for every double 0 <= n < 2^31.",
+    note="Data-race freedom and real goroutine timing (Go memory model) are outside the claim: the handler goroutine is run at harness-chosen points. "
+         "Handlers converted through reflect are exercised under C16.",
+    instances=dict(
+        quick=[_world("VHCommandPoll", DEPTH=1, QLEN=1, CMDCHAN=1, VISCFG=1, must_reach=["has-channel", "polled", "error-surfaced", "resumed"]),
+               _world("VHNextStep", DEPTH=1, QLEN=2, BUDGET=1, VISCFG=1, HEAD=6, must_reach=["pending", "handler-args", "fail", "end-by-stop"]),
+               inst("root", "VHWait", solver="cvc5", timeout_ms=300000, must_reach=["pending"])],
+        thorough=[_world("VHCommandPoll", DEPTH=2, QLEN=2, CMDCHAN=1, workers=16, must_reach=["has-channel", "polled", "error-surfaced", "resumed"]),
+                  _world("VHNextStep", DEPTH=2, QLEN=2, BUDGET=1, VISCFG=1, HEAD=6, must_reach=["pending", "handler-args", "fail", "end-by-stop"]),
+                  inst("root", "VHWait", solver="cvc5", timeout_ms=600000, must_reach=["pending"])]),
+    assumptions=["completion schedules: already complete, or complete after 0..2 polls, with nil or an error"],
+)
